@@ -44,7 +44,52 @@ def _cases():
                      {'k': 'function', 'name': 'identfilter_object_new', 'ret': ['ptr', ['named', 'identfilter_object_t']], 'params': [], 'file': 'identfilter.h', 'line': 7},
                      {'k': 'function', 'name': 'identfilter_object_foo_method', 'ret': VOID, 'params': [['self', ['ptr', ['named', 'identfilter_object_t']]]], 'file': 'identfilter.h', 'line': 8},
                      {'k': 'function', 'name': 'identfilter_object_free', 'ret': VOID, 'params': [['self', ['ptr', ['named', 'identfilter_object_t']]]], 'file': 'identfilter.h', 'line': 9}]}},
+        _typedefs_case(tests),
     ]
+
+
+def _typedefs_case(tests):
+    """tests/scanner/typedefs.h: every typedef/struct ordering, plain and boxed, through the dump
+    path (stub introspection binary, synthetic GObject GIR).  The expected GIR names the shared
+    library, which needs ldd on a real binary; that one attribute is blanked before comparing."""
+    f = 'typedefs.h'
+    INT = [{'name': 'value', 'type': ['basic', 'int']}]
+    P = 'Typedefs'
+
+    def fwd(name, line):
+        return {'k': 'typedef_struct_fwd', 'name': P + name, 'tag': '_' + P + name, 'file': f, 'line': line}
+
+    def body(name, line):
+        return {'k': 'struct_def', 'tag': '_' + P + name, 'members': INT, 'file': f, 'line': line}
+
+    def gt(snake, line):
+        return {'k': 'function', 'name': 'typedefs_%s_get_type' % snake, 'ret': ['named', 'GType'], 'params': [], 'file': f, 'line': line}
+    decls = [
+        {'k': 'typedef_struct', 'name': P + 'StructWithAnonymousTypedef', 'tag': None, 'members': INT, 'file': f, 'line': 13},
+        fwd('StructWithTypedefBefore', 18), body('StructWithTypedefBefore', 19),
+        body('StructWithTypedefAfter', 25), fwd('StructWithTypedefAfter', 28),
+        {'k': 'typedef_struct', 'name': P + 'StructWithTagAndTypedef', 'tag': '_' + P + 'StructWithTagAndTypedef', 'members': INT, 'file': f, 'line': 32},
+        fwd('BoxedWithTypedefBefore', 41), body('BoxedWithTypedefBefore', 42), gt('boxed_with_typedef_before', 47),
+        body('BoxedWithTypedefAfter', 51), fwd('BoxedWithTypedefAfter', 54), gt('boxed_with_typedef_after', 57),
+        {'k': 'typedef_struct', 'name': P + 'BoxedWithTagAndTypedef', 'tag': '_' + P + 'BoxedWithTagAndTypedef', 'members': INT, 'file': f, 'line': 61},
+        gt('boxed_with_tag_and_typedef', 66),
+        {'k': 'typedef_struct', 'name': P + 'BoxedWithAnonymousTypedef', 'tag': None, 'members': INT, 'file': f, 'line': 70},
+        gt('boxed_with_anonymous_typedef', 75),
+        fwd('BoxedWithHiddenStruct', 79), gt('boxed_with_hidden_struct', 82),
+    ]
+    dump = {}
+    for camel, snake in (('BoxedWithTypedefBefore', 'boxed_with_typedef_before'), ('BoxedWithTypedefAfter', 'boxed_with_typedef_after'),
+                         ('BoxedWithTagAndTypedef', 'boxed_with_tag_and_typedef'), ('BoxedWithAnonymousTypedef', 'boxed_with_anonymous_typedef'),
+                         ('BoxedWithHiddenStruct', 'boxed_with_hidden_struct')):
+        fn = 'typedefs_%s_get_type' % snake
+        dump[fn] = '<boxed name="%s%s" get-type="%s"/>' % (P, camel, fn)
+    return {'name': 'typedefs', 'expected': os.path.join(tests, 'Typedefs-1.0-expected.gir'),
+            'blank': [b' shared-library="libtypedef-1.0.so"', b' shared-library=""'],
+            'job': {'ns': 'Typedefs', 'version': '1.0', 'id_prefixes': ['Typedefs'], 'sym_prefixes': ['typedefs'],
+                    'includes': ['GObject-2.0'], 'program': 'bin/dumper', 'dump': dump, 'error_quarks': {},
+                    'options': ['--quiet', '--no-libtool', '--reparse-validate', '--warn-all', '--warn-error', '--pkg=gobject-2.0',
+                                '--c-include=typedefs.h', '--doc-format=gtk-doc-markdown'],
+                    'file_order': ['typedefs.c', f], 'order_before': [], 'comments': [], 'deps': [], 'decls': decls}}
 
 
 def run():
@@ -55,6 +100,8 @@ def run():
             jp = scansim.write_job_dir(case['job'], jobdir)
             r = scansim.run_variant(jobdir, jp, 0, {}, 'cal')
             want = open(case['expected'], 'rb').read()
+            if case.get('blank'):
+                want = want.replace(case['blank'][0], case['blank'][1])
             if r['status'] != 0 or r['data'] != want:
                 log = open(r['log']).read()[-1200:] if os.path.exists(r['log']) else ''
                 problems.append('%s: the stub front end does not regenerate %s (status %r)\n%s\n%s' % (
